@@ -6,7 +6,7 @@
 // Case lines (tab separated), the driver keeps the last F line as context:
 //
 //	F  id filehex startPos zeof  memDec lazyDec
-//	     memDec / lazyDec = o:<StartPos>:<LargeSize>:<len(Data)>:<lazyDataSize>:<Size()>:<reader pos after decode> | e | E(of)
+//	     memDec / lazyDec = o:<StartPos>:<LargeSize>:<len(Data)>:<lazyDataSize hex>:<Size() hex>:<reader pos after decode, hex> | e | E(of)
 //	R  id start size oracle  memRead lazyRead memCopy lazyCopy       (o:<hex> | e | p)
 //	H  id  lazyEncode  memEncode                                      (o:<hex> | e | p)
 //	T  id sizes uniform chunkOffsets                                  (sample table view of the current file)
@@ -157,7 +157,7 @@ func decRes(b mp4.Box, err error, rs *oRS) (string, *mp4.MdatBox) {
 	if m.LargeSize {
 		l = 1
 	}
-	return fmt.Sprintf("o:%d:%d:%d:%d:%d:%d", m.StartPos, l, len(m.Data), m.GetLazyDataSize(), m.Size(), rs.pos), m
+	return fmt.Sprintf("o:%d:%d:%d:%x:%x:%x", m.StartPos, l, len(m.Data), m.GetLazyDataSize(), m.Size(), uint64(rs.pos)), m
 }
 
 // decodeBoth decodes the mdat box at startPos in both modes with the real decoders.
@@ -349,7 +349,7 @@ func corr(seed uint64, n, exh int) {
 	for i := 0; i < n/2+1; i++ {
 		mf := genFile(rng, rng.Range(0, 12), rng.Bool())
 		f := append([]byte{}, mf.file...)
-		switch rng.Intn(5) {
+		switch rng.Intn(6) {
 		case 0:
 			f = f[:mf.startPos+rng.Intn(len(f)-mf.startPos+1)]
 		case 1:
@@ -364,6 +364,13 @@ func corr(seed uint64, n, exh int) {
 			f[mf.startPos+rng.Intn(4)] = byte(rng.Intn(3))
 		case 4:
 			f = f[:mf.startPos]
+		case 5: // 64-bit size field >= 2^63 (int64 conversions in both decoders) or just huge
+			f[mf.startPos], f[mf.startPos+1], f[mf.startPos+2], f[mf.startPos+3] = 0, 0, 0, 1
+			for len(f) < mf.startPos+16 {
+				f = append(f, 0)
+			}
+			f[mf.startPos+8] = byte(rng.Pick(0x80, 0xff, 0x7f, 0x00, 0xb8))
+			f[mf.startPos+9] = byte(rng.Intn(256))
 		}
 		mf.file = hx.Exact(f)
 		emitFile(mf, genOracle(rng), rng.Bool())
